@@ -1,4 +1,16 @@
 //! C03 — Stream framing is independent of how TCP/TLS segments the bytes
+//!
+//! Generated: sequences of SIP messages (`GenMsg`: start line, header lines as written, body) varied in header
+//! order, Content-Length spelling (name case / compact form, blanks and tabs around the colon, folds, leading
+//! zeros of the 1*DIGIT value up to 34 digits, position, absence on bodiless messages), decoy headers, non-ASCII
+//! UTF-8 text in the head (display names, TEXT-UTF8 values, reason phrases; 2- to 4-byte characters), bodies with
+//! CRLFCRLF / fake messages / up to 65535 bytes; CRLF keep-alives; segmentations (every 1-cut and 2-cut of a
+//! corpus, random cuts, cuts at structural landmarks incl. between the bytes of a multi-byte character, dribble).
+//! Oracle: the stream, fed through FramedRead<_, StreamingDecoder> in exactly that segmentation, must yield the
+//! same messages (start line, header name/value list, body) as each message alone through the datagram parser;
+//! the datagram result itself is cross-checked against the generator's record (body bytes, number of headers).
+//! Not asserted: behaviour for input the datagram parser rejects (invalid UTF-8 heads, LF-only line ends),
+//! several Content-Length headers, the kind of error.
 
 use crate::engine::*;
 use bytes::Bytes;
@@ -94,6 +106,11 @@ pub fn datagram_reference(bytes: &[u8]) -> Option<Parsed> {
 
 pub struct ScriptedReader {
     chunks: VecDeque<Bytes>,
+    /// stream offset behind the bytes handed out so far
+    pos: usize,
+    /// offsets at which a read ended: the segment boundaries the decoder really saw (a segment larger than the
+    /// free space of the read buffer is handed out in several reads, as a socket would)
+    boundaries: std::sync::Arc<std::sync::Mutex<Vec<usize>>>,
 }
 
 impl ScriptedReader {
@@ -110,7 +127,7 @@ impl ScriptedReader {
         if prev < stream.len() {
             chunks.push_back(Bytes::copy_from_slice(&stream[prev..]));
         }
-        Self { chunks }
+        Self { chunks, pos: 0, boundaries: Default::default() }
     }
 }
 
@@ -120,6 +137,11 @@ impl AsyncRead for ScriptedReader {
         if let Some(mut chunk) = self.chunks.pop_front() {
             let n = chunk.len().min(buf.remaining());
             buf.put_slice(&chunk.split_to(n));
+            if n > 0 {
+                self.pos += n;
+                let pos = self.pos;
+                self.boundaries.lock().unwrap().push(pos);
+            }
             if !chunk.is_empty() {
                 self.chunks.push_front(chunk);
             }
@@ -130,7 +152,21 @@ impl AsyncRead for ScriptedReader {
 
 /// Feed a segmented stream through the real FramedRead<_, StreamingDecoder>.
 pub fn decode_stream(stream: &[u8], cuts: &[usize]) -> (Vec<Parsed>, Option<String>) {
+    let (decoded, err, _) = decode_stream_traced(stream, cuts);
+    (decoded, err)
+}
+
+/// As `decode_stream`, also returns the offsets at which the reads of the decoder ended (superset of `cuts` as far
+/// as the stream was read)
+pub fn decode_stream_traced(stream: &[u8], cuts: &[usize]) -> (Vec<Parsed>, Option<String>, Vec<usize>) {
     let reader = ScriptedReader::new(stream, cuts);
+    let boundaries = reader.boundaries.clone();
+    let (decoded, err) = decode_scripted(reader);
+    let b = boundaries.lock().unwrap().clone();
+    (decoded, err, b)
+}
+
+fn decode_scripted(reader: ScriptedReader) -> (Vec<Parsed>, Option<String>) {
     let rt = tokio::runtime::Builder::new_current_thread().build().expect("rt");
     rt.block_on(async move {
         let mut framed = FramedRead::new(reader, StreamingDecoder::new(Default::default()));
@@ -164,8 +200,11 @@ pub struct Features {
     pub cut_in_head_after_cl: bool,
     pub cut_in_body: bool,
     pub cut_at_keepalive: bool,
+    pub cut_in_char: bool,
     pub decoy: bool,
     pub odd_spelling: bool,
+    pub zero_padded: bool,
+    pub utf8_head: bool,
     pub keepalive: bool,
     pub big: bool,
 }
@@ -177,35 +216,109 @@ fn cl_line_index(m: &GenMsg) -> Option<usize> {
     })
 }
 
-pub fn oracle(msgs: &[GenMsg], keepalives: &[u8], cuts: &[usize], out: &mut CaseOut) {
-    // build the stream: keepalives[i] CRLFs before message i, keepalives[n] after the last one
-    let mut stream: Vec<u8> = vec![];
-    let mut spans = vec![]; // (start, head_end, end, cl_line_end)
-    let mut ka_spans = vec![];
-    for (i, m) in msgs.iter().enumerate() {
-        let k = keepalives.get(i).copied().unwrap_or(0) as usize;
-        if k > 0 {
-            ka_spans.push((stream.len(), stream.len() + 2 * k));
+/// The 1*DIGIT of the Content-Length line as written (without the optional, possibly folded, blanks around it)
+fn cl_digits(m: &GenMsg) -> Option<&str> {
+    let l = &m.lines[cl_line_index(m)?];
+    Some(l.split_once(':')?.1.trim_matches(|c| matches!(c, ' ' | '\t' | '\r' | '\n')))
+}
+
+fn head_is_non_ascii(m: &GenMsg) -> bool {
+    !m.start.is_ascii() || m.lines.iter().any(|l| !l.is_ascii())
+}
+
+/// Byte layout of the stream a case writes
+pub struct Layout {
+    pub stream: Vec<u8>,
+    /// per message: (start, head_end, end, end of the Content-Length line incl. its CRLF)
+    pub spans: Vec<(usize, usize, usize, Option<usize>)>,
+    /// per message: (first byte after the colon of the Content-Length line, end of that line excl. CRLF)
+    pub cl_values: Vec<Option<(usize, usize)>>,
+    /// runs of keep-alive CRLFs
+    pub ka_spans: Vec<(usize, usize)>,
+}
+
+impl Layout {
+    /// keepalives[i] CRLFs before message i, keepalives[n] after the last one
+    pub fn new(msgs: &[GenMsg], keepalives: &[u8]) -> Self {
+        let mut stream: Vec<u8> = vec![];
+        let mut spans = vec![];
+        let mut cl_values = vec![];
+        let mut ka_spans = vec![];
+        for (i, m) in msgs.iter().enumerate() {
+            let k = keepalives.get(i).copied().unwrap_or(0) as usize;
+            if k > 0 {
+                ka_spans.push((stream.len(), stream.len() + 2 * k));
+            }
+            for _ in 0..k {
+                stream.extend_from_slice(b"\r\n");
+            }
+            let start = stream.len();
+            let b = m.bytes();
+            let head_end = start + m.head_len();
+            let idx = cl_line_index(m);
+            let cl_end = idx.map(|idx| start + m.start.len() + 2 + m.lines[..=idx].iter().map(|l| l.len() + 2).sum::<usize>());
+            cl_values.push(idx.and_then(|idx| {
+                let line_end = cl_end? - 2;
+                let colon = m.lines[idx].find(':')?;
+                Some((line_end - m.lines[idx].len() + colon + 1, line_end))
+            }));
+            stream.extend_from_slice(&b);
+            spans.push((start, head_end, stream.len(), cl_end));
         }
-        for _ in 0..k {
+        let tail_k = keepalives.get(msgs.len()).copied().unwrap_or(0) as usize;
+        if tail_k > 0 {
+            ka_spans.push((stream.len(), stream.len() + 2 * tail_k));
+        }
+        for _ in 0..tail_k {
             stream.extend_from_slice(b"\r\n");
         }
-        let start = stream.len();
-        let b = m.bytes();
-        let head_end = start + m.head_len();
-        let cl_end = cl_line_index(m).map(|idx| {
-            start + m.start.len() + 2 + m.lines[..=idx].iter().map(|l| l.len() + 2).sum::<usize>()
-        });
-        stream.extend_from_slice(&b);
-        spans.push((start, head_end, stream.len(), cl_end));
+        Layout { stream, spans, cl_values, ka_spans }
     }
-    let tail_k = keepalives.get(msgs.len()).copied().unwrap_or(0) as usize;
-    if tail_k > 0 {
-        ka_spans.push((stream.len(), stream.len() + 2 * tail_k));
+
+    /// Cut positions that fall between the bytes of one multi-byte character of a message head
+    /// (the byte behind the cut is a UTF-8 continuation byte; generated heads are valid UTF-8)
+    pub fn split_char_positions(&self) -> Vec<usize> {
+        let mut v = vec![];
+        for (start, head_end, _, _) in &self.spans {
+            for p in (*start + 1)..*head_end {
+                if self.stream[p] & 0xC0 == 0x80 {
+                    v.push(p);
+                }
+            }
+        }
+        v
     }
-    for _ in 0..tail_k {
-        stream.extend_from_slice(b"\r\n");
+
+    /// Structurally interesting cut positions: inside every multi-byte character of a head, inside and around the
+    /// Content-Length value, around the end of the Content-Length line, around the end of the head, around the end
+    /// of the message and around keep-alive runs.
+    pub fn landmarks(&self) -> Vec<usize> {
+        let mut v = self.split_char_positions();
+        for ((_, head_end, end, cl_end), clv) in self.spans.iter().zip(&self.cl_values) {
+            if let Some((a, b)) = clv {
+                v.extend(a.saturating_sub(1)..=*b + 2);
+            }
+            if let Some(c) = cl_end {
+                v.push(*c + 1);
+            }
+            v.extend(head_end.saturating_sub(3)..=*head_end + 1);
+            v.extend(end.saturating_sub(1)..=*end + 1);
+        }
+        for (a, b) in &self.ka_spans {
+            v.extend(a.saturating_sub(1)..=*b + 1);
+        }
+        let n = self.stream.len();
+        v.retain(|p| *p > 0 && *p < n);
+        v.sort();
+        v.dedup();
+        v
     }
+}
+
+pub fn oracle(msgs: &[GenMsg], keepalives: &[u8], cuts: &[usize], out: &mut CaseOut) {
+    let layout = Layout::new(msgs, keepalives);
+    let Layout { stream, spans, ka_spans, .. } = &layout;
+    let split_positions = layout.split_char_positions();
 
     // reference: each message alone as a datagram
     let mut reference = vec![];
@@ -228,13 +341,15 @@ pub fn oracle(msgs: &[GenMsg], keepalives: &[u8], cuts: &[usize], out: &mut Case
         }
     }
 
-    let (decoded, err) = decode_stream(&stream, cuts);
+    let (decoded, err, read_ends) = decode_stream_traced(stream, cuts);
 
     // classes
     let f = Features {
         cut_in_head_after_cl: cuts.iter().any(|c| spans.iter().any(|(_, he, _, cl)| cl.map_or(false, |cl| *c >= cl && *c < *he))),
         cut_in_body: cuts.iter().any(|c| spans.iter().any(|(_, he, e, _)| *c > *he && *c < *e)),
         cut_at_keepalive: cuts.iter().any(|c| ka_spans.iter().any(|(s, e)| *c >= *s && *c <= *e)),
+        // by the written segmentation or by the reads the decoder really made
+        cut_in_char: cuts.iter().chain(&read_ends).any(|c| split_positions.binary_search(c).is_ok()),
         decoy: msgs.iter().any(|m| {
             m.lines.iter().any(|l| {
                 let n = l.split(':').next().unwrap_or("").trim().to_ascii_lowercase();
@@ -242,9 +357,30 @@ pub fn oracle(msgs: &[GenMsg], keepalives: &[u8], cuts: &[usize], out: &mut Case
             })
         }),
         odd_spelling: msgs.iter().any(|m| cl_line_index(m).map_or(false, |i| !m.lines[i].starts_with("Content-Length: "))),
+        zero_padded: msgs.iter().any(|m| cl_digits(m).map_or(false, |d| d.len() > 1 && d.starts_with('0'))),
+        utf8_head: msgs.iter().any(head_is_non_ascii),
         keepalive: keepalives.iter().any(|k| *k > 0),
         big: stream.len() > 4096,
     };
+    if f.cut_in_char {
+        out.class("cut-inside-multibyte-char-of-head");
+    }
+    if f.utf8_head {
+        out.class("non-ascii-head");
+    }
+    if f.zero_padded {
+        out.class("zero-padded-content-length");
+        let longest = msgs.iter().filter_map(cl_digits).map(|d| d.len()).max().unwrap_or(0);
+        if longest > 5 {
+            out.class("content-length-with->5-digits");
+        }
+        if longest > 20 {
+            out.class("content-length-with->20-digits");
+        }
+    }
+    if msgs.iter().any(|m| cl_line_index(m).map_or(false, |i| m.lines[i].contains("\r\n"))) {
+        out.class("folded-content-length");
+    }
     if f.cut_in_head_after_cl {
         out.class("cut-in-head-after-content-length");
     }
@@ -272,7 +408,7 @@ pub fn oracle(msgs: &[GenMsg], keepalives: &[u8], cuts: &[usize], out: &mut Case
     if msgs.iter().skip(1).any(|m| cl_line_index(m).is_none()) && msgs.iter().any(|m| !m.body.is_empty()) {
         out.class("message without Content-Length behind a message with body");
     }
-    if f.cut_in_head_after_cl || f.cut_in_body || f.cut_at_keepalive || f.decoy || f.odd_spelling {
+    if f.cut_in_head_after_cl || f.cut_in_body || f.cut_at_keepalive || f.cut_in_char || f.decoy || f.odd_spelling || f.zero_padded {
         out.nontrivial(&(msgs, keepalives, cuts));
     }
 
@@ -283,6 +419,9 @@ pub fn oracle(msgs: &[GenMsg], keepalives: &[u8], cuts: &[usize], out: &mut Case
         if f.big { tags.push("big"); }
         if f.decoy { tags.push("decoy"); }
         if f.odd_spelling { tags.push("spelling"); }
+        if f.zero_padded { tags.push("zero-padded"); }
+        if f.utf8_head { tags.push("utf8-head"); }
+        if f.cut_in_char { tags.push("cut-in-char"); }
         if tags.is_empty() { tags.push("plain"); }
         tags.join("+")
     };
@@ -373,6 +512,18 @@ pub fn corpus() -> Vec<GenMsg> {
         mk("SIP/2.0 180 Ringing", &["Content-Length: 4", via, from, to, cid, cs], b"\x00\xff\r\n"),
         mk("INVITE sip:b@example.org SIP/2.0", &[via, from, to, cid, "CSeq: 1 INVITE", "Content-Type: application/sdp", "Content-Length: 9"], b"v=0\r\no=- "),
         mk("INVITE sip:b@example.org SIP/2.0", &[via, from, to, cid, "CSeq: 1 INVITE", "l: 9", "c: application/sdp", "s: 42", "x: 1800"], b"v=0\r\no=- "),
+        // (appended only: the replays in regress/ address this list by index)
+        // Content-Length = 1*DIGIT: any number of leading zeros is a legal spelling of the same length
+        mk("OPTIONS sip:b@example.org SIP/2.0", &[via, from, "Content-Length: 0004", to, cid, cs], body4),
+        mk("OPTIONS sip:b@example.org SIP/2.0", &[via, from, to, cid, cs, "Content-Length: 0000000004"], body4),
+        mk("OPTIONS sip:b@example.org SIP/2.0", &[via, "l: 000000", from, to, cid, cs], b""),
+        mk("OPTIONS sip:b@example.org SIP/2.0", &[via, from, "l \t:  \r\n\t 00000000000000000000004", to, cid, cs], body4),
+        // heads are UTF-8 text (display names, TEXT-UTF8 header values, reason phrases): 2-, 3- and 4-byte characters
+        mk("OPTIONS sip:b@example.org SIP/2.0", &[via, "From: \"J\u{f6}rg M\u{fc}ller\" <sip:a@example.org>;tag=1", to, cid, cs, "Content-Length: 4"], body4),
+        mk("OPTIONS sip:b@example.org SIP/2.0", &["Content-Length: 4", via, from, to, cid, cs, "Subject: \u{65e5}\u{672c} \u{1f600}"], body4),
+        mk("SIP/2.0 480 Zur Zeit nicht verf\u{fc}gbar \u{2013} sp\u{e4}ter", &[via, from, to, cid, cs, "l: 0"], b""),
+        // control: the same characters in a body under an ASCII head
+        mk("MESSAGE sip:b@example.org SIP/2.0", &[via, from, to, cid, "CSeq: 1 MESSAGE", "Content-Type: text/plain;charset=utf-8", "Content-Length: 12"], "gr\u{fc}\u{df}e \u{1f600}".as_bytes()),
     ]
 }
 
@@ -473,6 +624,9 @@ const STARTS: &[&str] = &[
     "SIP/2.0 200 OK",
     "SIP/2.0 180 Ringing",
     "SIP/2.0 404 Not Found",
+    // Reason-Phrase = *(reserved / unreserved / escaped / UTF8-NONASCII / UTF8-CONT / SP / HTAB)
+    "SIP/2.0 480 Zur Zeit nicht verf\u{fc}gbar",
+    "SIP/2.0 486 \u{8a71}\u{3057}\u{4e2d} \u{1f4f5}",
 ];
 const FILLER: &[&str] = &[
     "Via: SIP/2.0/TCP 192.0.2.4;branch=z9hG4bK7",
@@ -504,6 +658,23 @@ const DECOYS: &[&str] = &[
     "e: 7",
     "Content-Type: 12",
 ];
+/// Non-ASCII UTF-8 in the places the grammar has it: quoted display names (UTF8-NONASCII in quoted-string),
+/// TEXT-UTF8 header values (Subject, Organization, extension headers), comments, folded values; 2-, 3- and
+/// 4-byte characters, characters that Unicode (not SIP) counts as white space or line separators
+const UTF8_LINES: &[&str] = &[
+    "From: \"J\u{f6}rg M\u{fc}ller\" <sip:joerg@example.org>;tag=88",
+    "To: \"\u{416}\u{435}\u{43d}\u{44f}\" <sip:z@example.org>",
+    "Contact: \"\u{5c71}\u{7530} \u{592a}\u{90ce}\" <sip:yamada@192.0.2.9;transport=tcp>",
+    "Subject: \u{65e5}\u{672c}\u{8a9e}\u{306e}\u{4ef6}\u{540d}",
+    "Subject: caf\u{e9} \u{1f600} na\u{ef}ve",
+    "Subject: gr\u{fc}\u{df}e,\r\n \u{4e16}\u{754c}",
+    "Organization: \u{10348}\u{10349} GmbH & S\u{f6}hne",
+    "User-Agent: T\u{e9}l\u{e9}phone/1.0 (\u{c9}t\u{e9})",
+    "X-Note: \u{a0}lead and trail\u{a0}",
+    "X-Sep: a\u{2028}b\u{85}c",
+    "X-One: \u{e9}",
+    "X-Last: l\u{ff}: 9 \u{10ffff}",
+];
 const CL_NAMES: &[&str] = &["Content-Length", "content-length", "CONTENT-LENGTH", "Content-length", "cOnTeNt-LeNgTh", "l", "L"];
 
 fn body_strategy() -> BoxedStrategy<Vec<u8>> {
@@ -524,26 +695,47 @@ fn msg_strategy() -> BoxedStrategy<GenMsg> {
         any::<u16>(),
         prop::collection::vec(any::<u16>(), 2..11),
         prop::collection::vec(any::<u16>(), 0..3),
+        // non-ASCII header lines: none in half of the messages
+        prop_oneof![5 => Just(vec![]), 5 => prop::collection::vec(any::<u16>(), 1..4)],
         any::<u16>(),
-        (any::<u16>(), 0usize..4, 0usize..4, any::<bool>()),
+        (
+            any::<u16>(),
+            0usize..4,
+            0usize..4,
+            0u8..6,
+            // leading zeros of the Content-Length value: none / a few (value stays within 5 digits for small
+            // bodies) / many (6 .. 34 digits, beyond the digits of u16, u32, u64 and usize)
+            prop_oneof![5 => Just(0usize), 2 => 1usize..5, 3 => 5usize..30],
+        ),
         body_strategy(),
         prop_oneof![9 => Just(0usize), 1 => 3000usize..3800],
     )
-        .prop_map(|(ssel, fill, decoys, pos, (nsel, ws_before, ws_after, fold_value), body, pad)| {
+        .prop_map(|(ssel, fill, decoys, utf8, pos, (nsel, ws_before, ws_after, fold, zeros), body, pad)| {
             let mut lines: Vec<String> = fill.iter().map(|f| FILLER[pick_idx(*f, FILLER.len())].to_string()).collect();
             for d in decoys {
                 let at = pick_idx(d, lines.len() + 1);
                 lines.insert(at, DECOYS[pick_idx(d.rotate_left(5), DECOYS.len())].to_string());
+            }
+            for u in utf8 {
+                let at = pick_idx(u, lines.len() + 1);
+                lines.insert(at, UTF8_LINES[pick_idx(u.rotate_left(5), UTF8_LINES.len())].to_string());
             }
             if pad > 0 {
                 // pad the head towards the 4096 limit with one long header
                 lines.push(format!("X-Pad: {}", "p".repeat(pad)));
             }
             let name = CL_NAMES[pick_idx(nsel, CL_NAMES.len())];
-            // HCOLON = *( SP / HTAB ) ":" SWS — blanks and tabs in any mix (chosen by the name selector's low bits)
+            // HCOLON = *( SP / HTAB ) ":" SWS,  SWS = [ [*WSP CRLF] 1*WSP ] — blanks and tabs in any mix (chosen by
+            // the name selector's bits), optionally with a line fold
             let ws = |n: usize, bits: u16| -> String { (0..n).map(|i| if (bits >> i) & 1 == 1 { '\t' } else { ' ' }).collect() };
-            let sep = if fold_value { "\r\n ".to_string() } else { ws(ws_after, nsel >> 4) };
-            let cl = format!("{name}{}:{sep}{}", ws(ws_before, nsel >> 8), body.len());
+            let sep = match fold {
+                0..=2 => ws(ws_after, nsel >> 4),
+                3 => "\r\n ".to_string(),
+                4 => format!("{}\r\n\t", ws(ws_after, nsel >> 4)),
+                _ => format!("{}\r\n{}", ws(ws_after, nsel >> 4), ws(1 + ws_before, nsel >> 6)),
+            };
+            // Content-Length = ( "Content-Length" / "l" ) HCOLON 1*DIGIT
+            let cl = format!("{name}{}:{sep}{}{}", ws(ws_before, nsel >> 8), "0".repeat(zeros), body.len());
             let at = pick_idx(pos, lines.len() + 1);
             // a message without body may come without any Content-Length header (1 in 4 of the bodiless ones)
             if !(body.is_empty() && nsel % 4 == 3) {
@@ -569,36 +761,62 @@ fn msg_strategy() -> BoxedStrategy<GenMsg> {
         .boxed()
 }
 
+#[derive(Clone, Debug)]
+enum CutSel {
+    /// the whole stream in one write
+    Whole,
+    /// 1-byte dribble (strided above 3000 bytes)
+    Dribble,
+    /// k cuts anywhere
+    Anywhere(Vec<u16>),
+    /// k cuts at `Layout::landmarks` (the first one inside a multi-byte character of a head when there is one),
+    /// plus some anywhere
+    Landmarks(Vec<u16>, Vec<u16>),
+}
+
 pub fn strategy() -> BoxedStrategy<Case> {
     (
         prop::collection::vec(msg_strategy(), 1..5),
         prop::collection::vec(prop_oneof![4 => Just(0u8), 2 => Just(1u8), 2 => Just(2u8), 1 => Just(3u8)], 6),
         prop_oneof![
-            2 => Just(None::<Vec<u16>>),                             // single write
-            1 => Just(Some(vec![u16::MAX])),                         // marker: dribble
-            6 => prop::collection::vec(any::<u16>(), 1..17).prop_map(Some),
+            2 => Just(CutSel::Whole),
+            1 => Just(CutSel::Dribble),
+            5 => prop::collection::vec(any::<u16>(), 1..17).prop_map(CutSel::Anywhere),
+            3 => (prop::collection::vec(any::<u16>(), 1..7), prop::collection::vec(any::<u16>(), 0..4)).prop_map(|(a, b)| CutSel::Landmarks(a, b)),
         ],
     )
         .prop_map(|(msgs, ka, cutsel)| {
             let mut keepalives = ka;
             keepalives.truncate(msgs.len() + 1);
             let total: usize = msgs.iter().map(|m| m.bytes().len()).sum::<usize>() + keepalives.iter().map(|k| 2 * *k as usize).sum::<usize>();
-            let cuts = match cutsel {
-                None => vec![],
-                Some(v) if v == vec![u16::MAX] => {
+            let anywhere = |v: &[u16]| -> Vec<usize> { v.iter().map(|s| 1 + pick_idx(*s, total.saturating_sub(1).max(1))).collect() };
+            let mut cuts = match cutsel {
+                CutSel::Whole => vec![],
+                CutSel::Dribble => {
                     if total <= 3000 {
                         (1..total).collect()
                     } else {
                         (1..total).step_by(total / 1500 + 1).collect()
                     }
                 }
-                Some(v) => {
-                    let mut c: Vec<usize> = v.into_iter().map(|s| 1 + pick_idx(s, total.saturating_sub(1).max(1))).collect();
-                    c.sort();
-                    c.dedup();
+                CutSel::Anywhere(v) => anywhere(&v),
+                CutSel::Landmarks(at, extra) => {
+                    let layout = Layout::new(&msgs, &keepalives);
+                    let marks = layout.landmarks();
+                    let in_char = layout.split_char_positions();
+                    let mut c = anywhere(&extra);
+                    for (i, s) in at.iter().enumerate() {
+                        if i == 0 && !in_char.is_empty() {
+                            c.push(in_char[pick_idx(*s, in_char.len())]);
+                        } else if !marks.is_empty() {
+                            c.push(marks[pick_idx(*s, marks.len())]);
+                        }
+                    }
                     c
                 }
             };
+            cuts.sort();
+            cuts.dedup();
             Case { msgs, keepalives, cuts }
         })
         .boxed()
@@ -609,6 +827,12 @@ pub fn check(case: &Case, out: &mut CaseOut) {
 }
 
 fn seed_corpus_stream(dir: &std::path::Path) {
+    // artifacts of earlier campaigns (repaired defects): re-run first by every campaign
+    if let Ok(rd) = std::fs::read_dir("/verif/regress/fuzz-sip_stream") {
+        for e in rd.flatten() {
+            let _ = std::fs::copy(e.path(), dir.join(format!("regress-{}", e.file_name().to_string_lossy())));
+        }
+    }
     // input layout of the target: 3 selector bytes (segmentation), then the stream
     let c = corpus();
     for (i, m) in c.iter().enumerate() {
@@ -635,13 +859,15 @@ pub fn property() -> Property {
     Property {
         fuzz: vec![FuzzStage { target: "sip_stream", runs: 800_000, max_len: 9000, seed_corpus: seed_corpus_stream }],
         id: "C03",
-        rule: "a case = 1..4 SIP messages (heads <= 4096 B, bodies <= 65535 B; Content-Length spelled in any case / compact l,L / blanks around the colon / folded / any position, or absent on a bodiless message; decoy headers; bodies containing CRLFCRLF and fake messages) + 0..3 CRLF keep-alives before/between/after + a segmentation; fed through the real tokio_util FramedRead<_, StreamingDecoder>; oracle = each message alone through the datagram parser plus the generator's own record. cuts1: EVERY 1-cut of 26 corpus messages and of 2-message pipelines; cuts2: every 2-cut (thorough; strided in quick); random: generated sequences with k-cuts, 1-byte dribble, single write. Non-trivial = a cut inside a head after the Content-Length line, inside a body or at a keep-alive, or a decoy header, or a non-canonical Content-Length spelling; distinct by (messages, keep-alives, cuts).",
+        rule: "a case = 1..4 SIP messages (heads <= 4096 B, bodies <= 65535 B; Content-Length spelled in any case / compact l,L / blanks and tabs around the colon / folded (also with blanks before and behind the fold) / any position / value with 0..29 leading zeros (1*DIGIT: up to 34 digits, more than u16, u32, u64 hold), or absent on a bodiless message; decoy headers; non-ASCII UTF-8 (2-, 3-, 4-byte characters) in display names, TEXT-UTF8 header values, comments and reason phrases in half of the messages; bodies containing CRLFCRLF and fake messages) + 0..3 CRLF keep-alives before/between/after + a segmentation; fed through the real tokio_util FramedRead<_, StreamingDecoder>; oracle = each message alone through the datagram parser plus the generator's own record. cuts1: EVERY 1-cut of 39 corpus messages and of 2-message pipelines; cuts2: every 2-cut (thorough; strided in quick); random: generated sequences with k cuts anywhere, k cuts at landmarks (inside a multi-byte character of a head, inside / around the Content-Length value and line, around head end, message end and keep-alive runs), 1-byte dribble, single write. Non-trivial = a cut inside a head after the Content-Length line, inside a body, at a keep-alive or between the bytes of a multi-byte character of a head, or a decoy header, or a non-canonical Content-Length spelling (name, blanks, fold, leading zeros); distinct by (messages, keep-alives, cuts).",
         assumptions: vec![
             "line ends are CRLF (LF-only heads are outside the generated domain)",
+            "heads are valid UTF-8 (the datagram parser named as reference rejects anything else); Content-Length values are 1*DIGIT without sign or trailing blanks",
             "the datagram parser (reference named by the statement) is taken as given; its body and header count are cross-checked against the generator's record",
+            "the class / signature tag cut-in-char also counts the read boundaries the decoder really saw (a segment larger than the free read buffer is handed out in several reads)",
             "hook H1 re-exports the private StreamingDecoder",
         ],
-        explanation: "cuts1 and (thorough) cuts2 are exhaustive over the stated corpus sub-space; random is sampled",
+        explanation: "cuts1 and (thorough) cuts2 are exhaustive over the stated corpus sub-space; random is sampled. Not asserted: anything about messages the datagram parser rejects, several Content-Length headers in one message, what the error is when a stream is refused.",
         subs: vec![
             enum_sub("cuts1", cuts1_cases, check_corpus),
             enum_sub("cuts2", cuts2_cases, check_corpus),
